@@ -9,7 +9,7 @@
  *   exportfile <t> <path>                           hwloc_topology_export_xml to a file (document factory for the generators)
  *   mod <t> restrict <cpuset> | insertmisc | insertgroup | allow | distadd <typename> <n> | distremove
  *              | maregister | maset <a> <numa-logical-index> | refresh
- *   cons <t> traverse|typeprint|distget|distrelease|mameta|maget <q> <a>|localnodes|cpukinds|sets|bitmap|exportxml|exportsynth
+ *   cons <t> traverse|typeprint|distget|distrelease|mameta|maget <q> <a>|localnodes|cpukinds|sets|bitmap|exportxml|exportsynth|defaultnodeset|helpers
  *   filterall <t>         before load: keep every object type (memory-side caches are filtered out by default)
  *   destroy <t>
  *   env <NAME> [<VALUE>]  setenv / unsetenv (e.g. HWLOC_SYNTHETIC_VERBOSE)
@@ -35,6 +35,7 @@
 #include <string.h>
 #include <errno.h>
 #include <stdint.h>
+#include <limits.h>
 #include "hwv_dump.h"
 
 #define MAXT 64
@@ -78,6 +79,30 @@ static uint64_t cache_digest(hwloc_topology_t t)
       for (k = 0; k < g->nr_initiators; k++) { h = fnv_u64(h, g->initiators[k].value); h = fnv_u64(h, g->initiators[k].initiator.type); }
     }
   }
+  return h;
+}
+
+/* everything else of the topology that NO consulting call may write: the canonical dump (every object field reachable
+ * through the public structures, level membership in level order, sets, infos), the raw level arrays of the private
+ * structure - normal levels and the special levels (NUMA, I/O, Misc, MemCache) pointer by pointer, in order - and
+ * the CPU kinds */
+static uint64_t tree_digest(hwloc_topology_t t)
+{
+  char *buf = NULL; size_t len = 0; FILE *f = open_memstream(&buf, &len); uint64_t h; unsigned d, i;
+  hwv_dump_topology(f, t, 0); fclose(f);
+  h = fnv(FNV0, buf, len); free(buf);
+  h = fnv_u64(h, t->nb_levels);
+  for (d = 0; d < t->nb_levels; d++) { h = fnv_u64(h, t->level_nbobjects[d]); for (i = 0; i < t->level_nbobjects[d]; i++) h = fnv_u64(h, (uintptr_t)t->levels[d][i]); }
+  for (d = 0; d < HWLOC_NR_SLEVELS; d++) {
+    h = fnv_u64(h, t->slevels[d].nbobjs); h = fnv_u64(h, (uintptr_t)t->slevels[d].first); h = fnv_u64(h, (uintptr_t)t->slevels[d].last);
+    for (i = 0; i < t->slevels[d].nbobjs; i++) { h = fnv_u64(h, (uintptr_t)t->slevels[d].objs[i]); h = fnv_u64(h, t->slevels[d].objs[i]->logical_index); h = fnv_u64(h, t->slevels[d].objs[i]->os_index); }
+  }
+  h = fnv_u64(h, t->nr_cpukinds);
+  for (i = 0; i < t->nr_cpukinds; i++) {
+    char *s = NULL; hwloc_bitmap_asprintf(&s, t->cpukinds[i].cpuset); h = fnv_str(h, s); free(s);
+    h = fnv_u64(h, (uint64_t)t->cpukinds[i].efficiency); h = fnv_u64(h, (uint64_t)t->cpukinds[i].forced_efficiency); h = fnv_u64(h, t->cpukinds[i].ranking_value);
+  }
+  h = fnv_u64(h, t->flags); h = fnv_u64(h, (uint64_t)t->state); h = fnv_u64(h, (uintptr_t)t->userdata);
   return h;
 }
 
@@ -180,6 +205,11 @@ static uint64_t c_distget(hwloc_topology_t t, int release)
     unsigned nr2 = 32; if (hwloc_distances_get_by_type(t, HWLOC_OBJ_NUMANODE, &nr2, ds, 0, 0) == 0) { h = fnv_u64(h, nr2); for (i = 0; i < nr2 && i < 32; i++) hwloc_distances_release(t, ds[i]); }
     nr2 = 32; if (hwloc_distances_get_by_depth(t, hwloc_get_type_depth(t, HWLOC_OBJ_PU), &nr2, ds, 0, 0) == 0) { h = fnv_u64(h, nr2); for (i = 0; i < nr2 && i < 32; i++) hwloc_distances_release(t, ds[i]); }
   }
+  { /* by_name and a transformation of the caller's private copy (same internal get, hence in this call and not in `helpers`) */
+    unsigned nr3 = 8;
+    if (hwloc_distances_get_by_name(t, NULL, &nr3, ds, 0) == 0) { h = fnv_u64(h, nr3); for (i = 0; i < nr3 && i < 8; i++) {
+      hwloc_distances_transform(t, ds[i], HWLOC_DISTANCES_TRANSFORM_LINKS, NULL, 0);
+      h = fnv_u64(h, ds[i]->nbobjs ? ds[i]->values[ds[i]->nbobjs > 1 ? 1 : 0] : 0); hwloc_distances_release(t, ds[i]); } } }
   (void)release;
   return h;
 }
@@ -288,6 +318,76 @@ static uint64_t c_exportsynth(hwloc_topology_t t)
   rc = hwloc_topology_export_synthetic(t, buf, sizeof(buf), 0); h = fnv_u64(h, (uint64_t)(rc < 0 ? -1 : rc)); if (rc >= 0) h = fnv_str(h, buf);
   rc = hwloc_topology_export_synthetic(t, buf, sizeof(buf), HWLOC_TOPOLOGY_EXPORT_SYNTHETIC_FLAG_NO_ATTRS | HWLOC_TOPOLOGY_EXPORT_SYNTHETIC_FLAG_IGNORE_MEMORY);
   h = fnv_u64(h, (uint64_t)(rc < 0 ? -1 : rc)); if (rc >= 0) h = fnv_str(h, buf);
+  return h;
+}
+
+/* hwloc_topology_get_default_nodeset: flags must be 0; every other value is EINVAL */
+static uint64_t c_defaultnodeset(hwloc_topology_t t)
+{
+  static const unsigned long fl[] = { 0, 1, 2, 0x80000000ul, ~0ul };
+  uint64_t h = FNV0; unsigned k; hwloc_bitmap_t ns = hwloc_bitmap_alloc();
+  for (k = 0; k < sizeof(fl) / sizeof(fl[0]); k++) {
+    char *s = NULL; int rc; errno = 0;
+    rc = hwloc_topology_get_default_nodeset(t, ns, fl[k]);
+    h = fnv_u64(h, (uint64_t)rc); h = fnv_str(h, hwv_errno_name(rc ? errno : 0));
+    if (!rc) { hwloc_bitmap_asprintf(&s, ns); h = fnv_str(h, s); free(s); }
+  }
+  hwloc_bitmap_free(ns);
+  return h;
+}
+
+/* the consulting helpers of hwloc/helper.h, inlines.h, hwloc.h not exercised by the other calls */
+static uint64_t c_helpers(hwloc_topology_t t)
+{
+  uint64_t h = FNV0; hwloc_obj_t root = hwloc_get_root_obj(t), o = NULL, objs[64]; unsigned n = 0, i; int d;
+  hwloc_bitmap_t ns = hwloc_bitmap_alloc(), cs = hwloc_bitmap_alloc(); char *s = NULL;
+  struct hwloc_infos_s *infos = hwloc_topology_get_infos(t);
+#define HO(x) do { hwloc_obj_t _o = (x); h = fnv_u64(h, _o ? _o->gp_index : (uint64_t)-1); } while (0)
+  h = fnv_u64(h, (uint64_t)hwloc_topology_abi_check(t)); h = fnv_u64(h, (uintptr_t)hwloc_topology_get_userdata(t));
+  h = fnv_u64(h, hwloc_topology_get_support(t)->discovery->pu); h = fnv_u64(h, hwloc_get_api_version());
+  for (i = 0; infos && i < infos->count; i++) { h = fnv_str(h, infos->array[i].name); h = fnv_str(h, infos->array[i].value); }
+  h = fnv_str(h, hwloc_get_info_by_name(infos, "Backend")); h = fnv_str(h, hwloc_obj_get_info_by_name(root, "Backend"));
+  hwloc_cpuset_to_nodeset(t, root->cpuset, ns); hwloc_bitmap_asprintf(&s, ns); h = fnv_str(h, s); free(s);
+  hwloc_cpuset_from_nodeset(t, cs, root->nodeset); hwloc_bitmap_asprintf(&s, cs); h = fnv_str(h, s); free(s);
+  hwloc_bitmap_list_asprintf(&s, root->cpuset); h = fnv_str(h, s); free(s);
+  h = fnv_u64(h, (uint64_t)hwloc_bitmap_compare_first(root->cpuset, root->complete_cpuset)); h = fnv_u64(h, (uint64_t)hwloc_bitmap_first_unset(root->cpuset));
+  h = fnv_u64(h, (uint64_t)hwloc_bitmap_next_unset(root->cpuset, 0)); h = fnv_u64(h, (uint64_t)hwloc_bitmap_nr_ulongs(root->cpuset));
+  { unsigned long w[4] = {0, 0, 0, 0}; hwloc_bitmap_to_ulongs(root->cpuset, 4, w); h = fnv(h, w, sizeof(w)); }
+  for (d = 0; d < HWLOC_OBJ_TYPE_MAX; d++) {
+    hwloc_obj_type_t ty = (hwloc_obj_type_t)d;
+    h = fnv_u64(h, (uint64_t)hwloc_get_type_or_above_depth(t, ty)); h = fnv_u64(h, (uint64_t)hwloc_get_type_or_below_depth(t, ty));
+    h = fnv_u64(h, (uint64_t)(hwloc_obj_type_is_normal(ty) | hwloc_obj_type_is_io(ty) << 1 | hwloc_obj_type_is_memory(ty) << 2 | hwloc_obj_type_is_cache(ty) << 3 | hwloc_obj_type_is_dcache(ty) << 4 | hwloc_obj_type_is_icache(ty) << 5));
+    h = fnv_u64(h, (uint64_t)hwloc_compare_types(ty, HWLOC_OBJ_CORE));
+    h = fnv_u64(h, (uint64_t)hwloc_get_nbobjs_inside_cpuset_by_depth(t, root->cpuset, hwloc_get_type_depth(t, ty) >= 0 ? hwloc_get_type_depth(t, ty) : 0));
+  }
+  h = fnv_u64(h, (uint64_t)hwloc_get_cache_type_depth(t, 2, HWLOC_OBJ_CACHE_UNIFIED)); h = fnv_u64(h, (uint64_t)hwloc_get_cache_type_depth(t, 1, HWLOC_OBJ_CACHE_DATA));
+  while ((o = hwloc_get_next_obj_by_type(t, HWLOC_OBJ_PU, o)) != NULL && n++ < 32) {
+    hwloc_obj_t c = NULL; unsigned k;
+    HO(hwloc_get_obj_covering_cpuset(t, o->cpuset)); HO(hwloc_get_cache_covering_cpuset(t, o->cpuset)); HO(hwloc_get_shared_cache_covering_obj(t, o));
+    HO(hwloc_get_child_covering_cpuset(t, o->cpuset, root)); HO(hwloc_get_first_largest_obj_inside_cpuset(t, o->parent->cpuset));
+    HO(hwloc_get_ancestor_obj_by_depth(t, 0, o)); HO(hwloc_get_next_obj_by_depth(t, (int)o->depth, o));
+    HO(hwloc_get_next_obj_covering_cpuset_by_type(t, o->cpuset, HWLOC_OBJ_CORE, NULL)); HO(hwloc_get_next_obj_covering_cpuset_by_depth(t, o->cpuset, 0, NULL));
+    HO(hwloc_get_next_obj_inside_cpuset_by_type(t, root->cpuset, HWLOC_OBJ_PU, o)); HO(hwloc_get_next_obj_inside_cpuset_by_depth(t, root->cpuset, (int)o->depth, o));
+    HO(hwloc_get_obj_inside_cpuset_by_type(t, o->parent->cpuset, HWLOC_OBJ_PU, 0)); HO(hwloc_get_obj_inside_cpuset_by_depth(t, o->parent->cpuset, (int)o->depth, 0));
+    h = fnv_u64(h, (uint64_t)hwloc_get_obj_index_inside_cpuset(t, o->parent->cpuset, o)); h = fnv_u64(h, (uint64_t)hwloc_obj_is_in_subtree(t, o, o->parent));
+    HO(hwloc_get_obj_below_by_type(t, HWLOC_OBJ_MACHINE, 0, HWLOC_OBJ_PU, o->logical_index));
+    HO(hwloc_get_obj_with_same_locality(t, o, HWLOC_OBJ_PU, NULL, NULL, 0));
+    k = hwloc_get_closest_objs(t, o, objs, 8); h = fnv_u64(h, k); for (i = 0; i < k; i++) HO(objs[i]);
+    while ((c = hwloc_get_next_child(t, o->parent, c)) != NULL) HO(c);
+  }
+  { int k = hwloc_get_largest_objs_inside_cpuset(t, root->cpuset, objs, 64); h = fnv_u64(h, (uint64_t)k); for (i = 0; k > 0 && i < (unsigned)k; i++) HO(objs[i]); }
+  { hwloc_obj_type_t tv[2] = { HWLOC_OBJ_PACKAGE, HWLOC_OBJ_PU }; unsigned iv[2] = { 0, 1 }; HO(hwloc_get_obj_below_array_by_type(t, 2, tv, iv)); }
+  if (!hwloc_bitmap_iszero(root->cpuset)) {
+    hwloc_cpuset_t sets[5]; hwloc_obj_t r = root;
+    if (hwloc_distrib(t, &r, 1, sets, 5, INT_MAX, 0) == 0) for (i = 0; i < 5; i++) { hwloc_bitmap_asprintf(&s, sets[i]); h = fnv_str(h, s); free(s); hwloc_bitmap_free(sets[i]); }
+    if (hwloc_distrib(t, &r, 1, sets, 3, INT_MAX, HWLOC_DISTRIB_FLAG_REVERSE) == 0) for (i = 0; i < 3; i++) { hwloc_bitmap_asprintf(&s, sets[i]); h = fnv_str(h, s); free(s); hwloc_bitmap_free(sets[i]); }
+  }
+  o = NULL; while ((o = hwloc_get_next_pcidev(t, o)) != NULL) { HO(o); HO(hwloc_get_pcidev_by_busid(t, o->attr->pcidev.domain, o->attr->pcidev.bus, o->attr->pcidev.dev, o->attr->pcidev.func)); HO(hwloc_get_non_io_ancestor_obj(t, o)); }
+  o = NULL; while ((o = hwloc_get_next_osdev(t, o)) != NULL) HO(o);
+  o = NULL; while ((o = hwloc_get_next_bridge(t, o)) != NULL) HO(o);
+  HO(hwloc_get_pcidev_by_busidstring(t, "0000:00:00.0"));
+#undef HO
+  hwloc_bitmap_free(ns); hwloc_bitmap_free(cs);
   return h;
 }
 
@@ -430,6 +530,8 @@ static void run_cmd(char *cmd, struct outcome *out, int verbose)
     else if (!strcmp(what, "bitmap")) out->digest = c_bitmap(t);
     else if (!strcmp(what, "exportxml")) out->digest = c_exportxml(t);
     else if (!strcmp(what, "exportsynth")) out->digest = c_exportsynth(t);
+    else if (!strcmp(what, "defaultnodeset")) out->digest = c_defaultnodeset(t);
+    else if (!strcmp(what, "helpers")) out->digest = c_helpers(t);
     else out->rc = -2;
     return;
   }
@@ -489,14 +591,15 @@ int main(void)
       continue;
     }
     if (!strcmp(line, "run") || !strcmp(line, "run noref")) {
-      pthread_t th[MAXTH]; uint64_t before[MAXT], after[MAXT]; unsigned k; int chg = 0, noref = !strcmp(line, "run noref");
-      for (k = 0; k < MAXT; k++) before[k] = topos[k] ? cache_digest(topos[k]) : 0;
+      pthread_t th[MAXTH]; uint64_t before[MAXT], after[MAXT], tb[MAXT]; unsigned k; int chg = 0, tchg = 0, noref = !strcmp(line, "run noref");
+      for (k = 0; k < MAXT; k++) { before[k] = topos[k] ? cache_digest(topos[k]) : 0; tb[k] = topos[k] && loaded[k] ? tree_digest(topos[k]) : 0; }
       pthread_barrier_init(&barrier, NULL, nthreads); pthread_barrier_init(&opbarrier, NULL, nthreads); in_threads = 1;
       for (i = 0; i < nthreads; i++) pthread_create(&th[i], NULL, thread_main, (void *)(uintptr_t)i);
       for (i = 0; i < nthreads; i++) pthread_join(th[i], NULL);
       pthread_barrier_destroy(&barrier); pthread_barrier_destroy(&opbarrier); in_threads = 0;
-      for (k = 0; k < MAXT; k++) { after[k] = topos[k] ? cache_digest(topos[k]) : 0; if (after[k] != before[k]) chg = 1; }
-      printf("R %u threads=%u cache_chg=%d\n", lineno, nthreads, chg);
+      for (k = 0; k < MAXT; k++) { after[k] = topos[k] ? cache_digest(topos[k]) : 0; if (after[k] != before[k]) chg = 1;
+        if (tb[k] && topos[k] && loaded[k] && tb[k] != tree_digest(topos[k])) tchg = 1; }
+      printf("R %u threads=%u cache_chg=%d tree_chg=%d\n", lineno, nthreads, chg, tchg);
       for (i = 0; i < nthreads; i++) {
         /* the sequential reference: the same program run alone, afterwards, by the main thread */
         int bad = 0; uint64_t ref = noref ? tdigest[i] : run_program(i, &bad, NULL); unsigned q;
@@ -507,14 +610,16 @@ int main(void)
       continue;
     }
     {
-      struct outcome oc; unsigned ti = 0; uint64_t before = 0, after = 0; char kind[32]; char *copy = strdup(line);
-      sscanf(line, "%31s %u", kind, &ti);
+      struct outcome oc; unsigned ti = 0; uint64_t before = 0, after = 0, tbefore = 0; char kind[32]; char *copy = strdup(line); int iscons;
+      sscanf(line, "%31s %u", kind, &ti); iscons = !strcmp(kind, "cons");
       if (ti < MAXT && topos[ti] && strcmp(kind, "destroy")) before = cache_digest(topos[ti]);
+      if (iscons && ti < MAXT && topos[ti] && loaded[ti]) tbefore = tree_digest(topos[ti]);
       printf("S %u %s", lineno, line);
       run_cmd(copy, &oc, 1); free(copy);
       printf(" rc=%d", oc.rc);
       if (ti < MAXT && topos[ti]) { after = cache_digest(topos[ti]); print_flags(topos[ti]); printf(" chg=%d", before != after); }
       else printf(" nd=0 dv=- mv=- chg=0");
+      if (iscons && ti < MAXT && topos[ti] && loaded[ti]) printf(" tree=%d", tbefore != tree_digest(topos[ti]));
       if (!strcmp(kind, "cons")) printf(" digest=%016llx", (unsigned long long)oc.digest);
       if (!strcmp(kind, "cons") && strstr(line, " exportsynth") && ti < MAXT && topos[ti]) printf(" warns=%d", synth_warns(topos[ti]));
       printf("\n");
